@@ -60,13 +60,28 @@ def lake_build(targets):
     return r.returncode == 0, (r.stdout + r.stderr)
 
 
-def cargo_build():
+VHARNESS_AVX2 = os.path.join(HARNESS, "target-avx2", "debug", "vharness")
+
+
+def have_avx2():
+    try:
+        return "avx2" in open("/proc/cpuinfo").read()
+    except OSError:
+        return False
+
+
+def cargo_build(avx2=False):
     lock_src = "/repo/Cargo.lock"
     lock_dst = os.path.join(HARNESS, "Cargo.lock")
     if not os.path.exists(lock_dst) and os.path.exists(lock_src):
         import shutil
         shutil.copy(lock_src, lock_dst)
-    r = sh(["cargo", "build", "--offline"], cwd=HARNESS, timeout=3600)
+    env = dict(ENV)
+    cmd = ["cargo", "build", "--offline"]
+    if avx2:
+        env["RUSTFLAGS"] = "-C target-feature=+avx2"
+        env["CARGO_TARGET_DIR"] = os.path.join(HARNESS, "target-avx2")
+    r = subprocess.run(cmd, cwd=HARNESS, env=env, timeout=3600, stdout=subprocess.PIPE, stderr=subprocess.PIPE, text=True)
     return r.returncode == 0, (r.stdout + r.stderr)
 
 
@@ -142,14 +157,14 @@ def fixes_arg():
     return "".join("1" if FIXES[k] else "0" for k in ["f1", "f2", "f3", "f4", "f5", "f2b", "f8", "f10"])
 
 
-def run_stream(pid, idx, hargs, per_case_timeout=20):
+def run_stream(pid, idx, hargs, per_case_timeout=20, binary=None):
     """Run harness + model for one stream; returns list of (input_line, impl, model, extra)."""
     d = os.path.join(WORK, pid)
     os.makedirs(d, exist_ok=True)
     cases = os.path.join(d, f"cases_{idx}.txt")
     model = os.path.join(d, f"model_{idx}.txt")
     with open(cases, "w") as f:
-        r = subprocess.run([VHARNESS] + hargs, env=ENV, stdout=f, stderr=subprocess.DEVNULL,
+        r = subprocess.run([binary or VHARNESS] + hargs, env=ENV, stdout=f, stderr=subprocess.DEVNULL,
                            timeout=7200)
     if r.returncode != 0:
         # the harness died (abort/hang inside the implementation): last printed case is the suspect
@@ -272,8 +287,23 @@ def check(pid, tier, seed, replay=None):
         if os.path.isdir(cdir):
             pinned = [(["replayfile", os.path.join(cdir, f)], streams[0][1]) for f in sorted(os.listdir(cdir))]
             streams = pinned + list(streams)
-    for idx, (hargs, classify) in enumerate(streams):
-        res, cases_path = run_stream(pid, idx, hargs)
+    avx2_built = False
+    for idx, entry in enumerate(streams):
+        hargs, classify = entry[0], entry[1]
+        opts = entry[2] if len(entry) > 2 else {}
+        binary = None
+        if opts.get("avx2"):
+            if not have_avx2():
+                notes.append("AVX2 not available on this CPU: stream skipped: " + " ".join(hargs))
+                continue
+            if not avx2_built:
+                ok, out = cargo_build(avx2=True)
+                if not ok:
+                    infra("cargo build of the AVX2 harness failed\n" + out[-3000:])
+                avx2_built = True
+            binary = VHARNESS_AVX2
+            dist["build=avx2"] += 0
+        res, cases_path = run_stream(pid, idx, hargs, binary=binary)
         if res is None:
             last = ""
             try:
@@ -394,6 +424,11 @@ def setup():
     cerr = extract_consts()
     if cerr:
         infra(cerr)
+    if have_avx2():
+        ok, out = cargo_build(avx2=True)
+        if not ok:
+            print(out[-6000:])
+            infra("cargo build (AVX2) failed")
     ok, out = lake_build([])
     if not ok:
         print(out[-6000:])
